@@ -19,8 +19,9 @@ LINK_HREF_INLINE_RE = re.compile(
 
 LINK_TITLE_RE = re.compile(
     r"[ \t\n]+("
-    r'"(?:\\' + PUNCTUATION + r'|[^"\x00])*"|'  # "title"
-    r"'(?:\\" + PUNCTUATION + r"|[^'\x00])*'"  # 'title'
+    # the alternatives are disjoint (a backslash is consumed by exactly one of them): no exponential backtracking
+    r'"(?:\\' + PUNCTUATION + r'|\\(?!' + PUNCTUATION + r')|[^"\\\x00])*"|'  # "title"
+    r"'(?:\\" + PUNCTUATION + r"|\\(?!" + PUNCTUATION + r")|[^'\\\x00])*'"  # 'title'
     r")"
 )
 PAREN_END_RE = re.compile(r"\s*\)")
